@@ -190,8 +190,13 @@ def shape_problems(data, records):
         if isinstance(t, (PS.ObjectType, PS.InterfaceType, PS.UnionType)):
             if not isinstance(v, dict):
                 problems.append(("shape:object-expected", "%r holds %s" % (path, type(v).__name__)))
-        elif isinstance(v, (dict,)) and isinstance(t, PS.EnumType):
-            problems.append(("shape:leaf-expected", "%r holds dict" % (path,)))
+            elif not has_sel:
+                problems.append(("shape:object-without-sub-selection", "%r of type %s" % (path, t)))
+        else:
+            if has_sel:
+                problems.append(("shape:leaf-with-sub-selection", "%r of type %s" % (path, t)))
+            if isinstance(v, (dict,)) and isinstance(t, PS.EnumType):
+                problems.append(("shape:leaf-expected", "%r holds dict" % (path,)))
 
     for path, t, has_sel in records:
         got = at(path)
@@ -199,6 +204,56 @@ def shape_problems(data, records):
             check(t, got[1], has_sel, path)
         elif got[0] == "missing":
             problems.append(("shape:resolved-field-missing-from-data", repr(path)))
+    return problems
+
+
+def selection_shape_problems(document, operation, data):
+    """Shape implied by the selection sets alone (no schema, no library component): an unconditionally
+    selected key is present in every object of its parent; a field written with a sub-selection holds
+    objects (or null / lists of them), a field written without one holds no object."""
+    from py_gql.lang import ast as A
+
+    frags = dict((d.name.value, d) for d in document.definitions if isinstance(d, A.FragmentDefinition))
+    problems = []
+
+    def each_object(v, fn, path):
+        if isinstance(v, list):
+            for i, x in enumerate(v):
+                each_object(x, fn, path + (i,))
+        elif v is not None:
+            fn(v, path)
+
+    def has_object(v):
+        if isinstance(v, list):
+            return any(has_object(x) for x in v)
+        return isinstance(v, dict)
+
+    def walk(selections, obj, path, unconditional, seen):
+        for sel in selections:
+            cond = unconditional and not sel.directives
+            if isinstance(sel, A.Field):
+                key = sel.alias.value if sel.alias else sel.name.value
+                if key not in obj:
+                    if cond:
+                        problems.append(("shape:selected-key-missing", "%r lacks %r" % (path, key)))
+                    continue
+                v = obj[key]
+                if sel.selection_set is not None and sel.selection_set.selections:
+                    def visit(x, p, sel=sel):
+                        if not isinstance(x, dict):
+                            problems.append(("shape:object-expected-by-selection", "%r holds %s" % (p, type(x).__name__)))
+                        else:
+                            walk(sel.selection_set.selections, x, p, cond, set())
+                    each_object(v, visit, path + (key,))
+            elif isinstance(sel, A.InlineFragment):
+                walk(sel.selection_set.selections, obj, path, cond and sel.type_condition is None, seen)
+            elif isinstance(sel, A.FragmentSpread):
+                name = sel.name.value
+                if name in frags and name not in seen:
+                    walk(frags[name].selection_set.selections, obj, path, False, seen | set([name]))
+
+    if isinstance(data, dict):
+        walk(operation.selection_set.selections, data, (), True, set())
     return problems
 
 
@@ -316,6 +371,8 @@ def validate_and_maybe_execute(ctx, rng, case, text, cls, doc_ir=None, op_ir=Non
             # nulls in non-null positions only stem from the world (p=0 here) or resolver errors
             if k == "shape:null-in-non-null":
                 continue
+            ctx.violation(k, witness, detail)
+        for k, detail in selection_shape_problems(document, target, result.data)[:1]:
             ctx.violation(k, witness, detail)
         ctx.count("shapes_checked")
     if doc_ir is not None and op_ir is not None and cls in ("valid", "adversarial:valid"):
